@@ -5,7 +5,7 @@
    [prints_only s r]: r is a normal return in the state s with text appended to the captured output, or an error in
    exactly s; never a panic. *)
 From Xeh Require Import Model.Prelude Model.Bits Model.Codec Model.Cell Model.Lexer Model.Fmt Model.Vm Model.Words.
-From Xeh Require Import Proofs.DumpUtf8.
+From Xeh Require Import Proofs.DumpUtf8 Proofs.DumpFuel.
 Local Notation length := List.length.
 
 Theorem C06_dump_prints_only : forall s, prints_only s (w_dump s).
@@ -68,3 +68,23 @@ Example C06_dump_example :
   fmt_bitstr_dump (mkcbs 3 48 [65; 226; 130; 172; 66; 255]%N)
   = Some ("00000,3: 0f 14 15 62 17 1f      ...b..  " ++ String (Ascii.ascii_of_N 10) "")%string.
 Proof. vm_compute. reflexivity. Qed.
+
+(* ---------- the line loop always ends: for a well-formed input `dump` / `dump-at` never leave the model ---------- *)
+Theorem C06_dump_text_total : forall c, wf c -> fmt_bitstr_dump c <> None.
+Proof. exact fmt_bitstr_dump_total. Qed.
+Check C06_dump_text_total : forall c, wf c -> fmt_bitstr_dump c <> None.
+
+Theorem C06_dump_in_model : forall s, input_wf s -> w_dump s <> RUnsup.
+Proof. exact w_dump_in_model. Qed.
+Check C06_dump_in_model : forall s, input_wf s -> w_dump s <> RUnsup.
+
+Theorem C06_dump_at_in_model : forall s, input_wf s -> w_dump_at s <> RUnsup.
+Proof. exact w_dump_at_in_model. Qed.
+Check C06_dump_at_in_model : forall s, input_wf s -> w_dump_at s <> RUnsup.
+
+(* every 8-bit group of a well-formed value has at least one bit and together they have exactly its bits *)
+Theorem C06_iter8_groups : forall c, wf c ->
+  Forall (fun g => 0 < snd g) (iter8 c) /\ list_sum (map snd (iter8 c)) = clen c.
+Proof. exact iter8_groups. Qed.
+Check C06_iter8_groups : forall c, wf c ->
+  Forall (fun g => 0 < snd g) (iter8 c) /\ list_sum (map snd (iter8 c)) = clen c.
